@@ -159,6 +159,9 @@ def run(ctx):
     from .c06 import _pattern
 
     ctx.section(_pattern, ctx, index)
+    from . import c10 as _c10_state
+
+    ctx.section(_c10_state.state_slice, ctx, 'C08.state', ['cdd.class_.emit.class_', 'cdd.class_.parse.class_', 'cdd.function.emit.function', 'cdd.function.parse.function', 'cdd.argparse_function.emit.argparse_function', 'cdd.argparse_function.parse.argparse_ast', 'cdd.docstring.emit.docstring', 'cdd.docstring.parse.docstring', 'cdd.json_schema.emit.json_schema', 'cdd.json_schema.parse.json_schema'], 5)
 
 
 def strip_rule(ctx, rule, funcs):
